@@ -92,3 +92,12 @@ package stdlib_contracts
 //@ func (*Reader).Len   trusted
 //@   modifies nothing
 //@   ensures result == gh("left", ref(r)) && result >= 0
+
+//@ package crypto/cipher
+
+// a CTR stream over a block cipher: reads the iv, allocates its own state (the stdlib panics if len(iv) != block size: the
+// callers under contract pass exactly one block)
+//@ func NewCTR   trusted
+//@   modifies nothing
+//@ func (Stream).XORKeyStream   trusted
+//@   modifies elems(dst)
